@@ -23,7 +23,7 @@ ASSUMPTIONS = ['class attributes rewritten by BooleanAlgebra.__init__ are not re
 
 TEXTS = ['gpl 2.0 or mit', 'mit or gpl 2.0', 'mit and gpl 2.0 and mit', 'mit and gpl 2.0', '(mit or foo) and bar', 'bar and (foo or mit)',
          'gplv2 and x mit', 'gnu gpl v2 or mit', 'mit', 'mit or gpl 2.0', 'MIT and (gnu gpl v2 with classpath)', 'foo bar', 'mit mit', '()', 'a and (or b)',
-         'classpath', 'mit with classpath', 'x with mit', 'gpl 2.0 or later or foo', '', '  ', 'mit or', 'a,b']
+         'classpath', 'mit with classpath', 'foo', 'FOO', 'Foo or mit', 'foo and FOO', 'BAR and (FOO or mit)', 'x with mit', 'gpl 2.0 or later or foo', '', '  ', 'mit or', 'a,b']
 
 
 def gen_history(rng):
